@@ -594,12 +594,17 @@ func init() { vxRegister("VX_C07_DialHooks", VX_C07_DialHooks) }
 // VX_C07_DialHooks: Peer.Dial with solver-chosen outcomes of every connection
 // attempt and every dial-hook verdict: a session is returned, healthy and
 // listed iff some attempt both connected and passed the dial hooks; otherwise
-// Dial fails, returns no session and lists nothing. args: redialTimes
+// Dial fails, returns no session and lists nothing. args: redialTimes[, rename(1: an earlier dial hook calls SetID)]
 func VX_C07_DialHooks(args []int) {
 	R := args[0]
 	var log []string
 	pl := newVxPlugin("dialhook", &log)
-	p := NewPeer(PeerConfig{RedialTimes: int32(R)}, pl)
+	plugins := []Plugin{pl}
+	if len(args) > 1 && args[1] == 1 {
+		// an earlier dial hook names the session (SetID) before the verdict of the later one
+		plugins = []Plugin{&vxNamer{id: "user-7"}, pl}
+	}
+	p := NewPeer(PeerConfig{RedialTimes: int32(R)}, plugins...)
 	attempts := 0
 	good := false
 	var conns []*vxConn
@@ -639,6 +644,8 @@ func VX_C07_DialHooks(args []int) {
 		vxCover("c07.dial.failed")
 		vxAssert(s == nil, "a failed Dial returns no session")
 		vxAssert(p.CountSession() == 0, "and lists nothing")
+		_, named := p.GetSession("user-7")
+		vxAssert(!named, "a failed Dial leaves nothing reachable under the id a dial hook assigned")
 		for _, c := range conns {
 			vxAssert(c.isClosed(), "connections whose dial hooks failed are closed")
 		}
